@@ -67,6 +67,23 @@ Section Transforms.
   Definition save (n : node) : node := Node (transforms n) (node_matrix_saved (transforms n)).
   Definition run_edits (n : node) (es : list edit) : node := fold_left edit_node es n.
 
+  (* histories in which saves may FAIL: Node.save recomputes the matrix and then saves the children, one of
+     which may raise.  Whatever such an attempt leaves in the cached matrix (here: any matrix at all) the
+     transform list is untouched *)
+  Inductive hstep : Type :=
+  | HEdit (e : edit)
+  | HSave
+  | HSaveFailed (left_behind : mat R).
+  Definition hstep_apply (n : node) (s : hstep) : node :=
+    match s with
+    | HEdit e => edit_node n e
+    | HSave => save n
+    | HSaveFailed m => Node (transforms n) m
+    end.
+  Definition run_history (n : node) (h : list hstep) : node := fold_left hstep_apply h n.
+  Definition history_transforms (ts : list transform) (h : list hstep) : list transform :=
+    fold_left (fun ts s => match s with HEdit e => apply_edit ts e | _ => ts end) h ts.
+
   (* SPEC: the product, in listed order, of the matrices of the transforms *)
   Definition spec_matrix (ts : list transform) : mat R :=
     mprod (o0 O) (o1 O) (oadd O) (omul O) (map transform_matrix ts).
@@ -80,6 +97,8 @@ Arguments EAppend {R}. Arguments EInsert {R}. Arguments EDelete {R}. Arguments E
 Arguments EReverse {R}. Arguments EClear {R}.
 Arguments apply_edit {R}. Arguments edit_node {R}. Arguments save {R}. Arguments run_edits {R}.
 Arguments spec_matrix {R}.
+Arguments HEdit {R}. Arguments HSave {R}. Arguments HSaveFailed {R}.
+Arguments hstep_apply {R}. Arguments run_history {R}. Arguments history_transforms {R}.
 
 (* ---- the integer instance.  Angles are multiples of 90 degrees: "radians" are measured in
    the unit in which pi is 180, so  angle * pi / 180  is the angle itself (exact division);
